@@ -290,6 +290,17 @@ def response_part(job, r):
         other.append(('other-version', lambda req: S.aggr_response(req, s, key, version=3 - version, alg=alg)))
         other.append(('no-mac', lambda req: S.aggr_response(req, s, key, version=version, alg=alg, mac=False)))
         other.append(('no-header', lambda req: S.aggr_response(req, s, key, version=version, alg=alg, header=False)))
+        if version == 1:
+            # the client's own request (header, request payload, its MAC) sent back with a response payload spliced in: needs no key at all
+            def reflected(req, order=0):
+                t = R.expand(R.read_tlv(w.last_raw)[0])
+                kids = t.kids()
+                resp = R.expand(R.read_tlv(honest(req))[0]).one(0x202)
+                rq = [k for k in kids if k.tag == 0x201]
+                parts = [k for k in kids if k.tag == 1] + (rq + [resp] if order == 0 else [resp] + rq) + [k for k in kids if k.tag == 0x1f]
+                return R.T(0x200, parts).enc()
+            other.append(('reflected-request-plus-response', reflected))
+            other.append(('reflected-response-plus-request', lambda req: reflected(req, 1)))
         if version == 2:
             other.append(('element-after-mac', lambda req: S.wrap_v2(S.AGGR_RESP_V2, [R.T(2, S.aggr_payload(req['req_id'], s, 0))], key, alg, extra_after_mac=[R.T(0x1d, b'\x01', nc=True)])))
             other.append(('mac-over-prefix-only', lambda req: _mac_prefix(req, s, key, alg)))
